@@ -5,6 +5,6 @@ package keeper
 // VerifSharesBeforeModified exposes, read-only and in verification builds only (build tag
 // `verif`), the process-global that carries the pre-modification delegation shares between
 // the staking hooks, so that checks can assert it leaves no residue at block boundaries.
-func VerifSharesBeforeModified() (value string, delegation string) {
-	return sharesBeforeModified.String(), sharesBeforeModifiedFor
+func VerifSharesBeforeModified() string {
+	return sharesBeforeModified.String()
 }
